@@ -1,0 +1,31 @@
+"""
+Verification hooks. These are only active when the environment variable
+GTIRB_REWRITING_VERIF is set to "1"; otherwise emit() does nothing.
+
+A verification harness registers callbacks with add_callback() to observe
+the intermediate states of a rewrite (for example to compare what the
+modify caches report with what the IR itself says) without perturbing them.
+"""
+
+import os
+from typing import Any, Callable, List
+
+ENABLED = os.environ.get("GTIRB_REWRITING_VERIF") == "1"
+
+_callbacks: List[Callable[..., None]] = []
+
+
+def add_callback(callback: Callable[..., None]) -> None:
+    _callbacks.append(callback)
+
+
+def remove_callback(callback: Callable[..., None]) -> None:
+    _callbacks.remove(callback)
+
+
+def emit(event: str, **kwargs: Any) -> None:
+    if not ENABLED:
+        return
+
+    for callback in tuple(_callbacks):
+        callback(event, **kwargs)
